@@ -42,7 +42,9 @@ RcptIds  == {"r1", "r2", "r3"}
 Targets  == {"T1", "T2"}
 TargetOf(b) == IF b = "D1" THEN "T1" ELSE "T2"
 
-(* ---- configuration helpers; c = [place, verd, only1, route, na, dmarc, kind] *)
+(* ---- configuration helpers; c = [place, verd, only1, route, path, dmarc, kind, mod, mfail]      *)
+(* kind: "pipe" recording targets; "rpipe" the real remote target behind block D1; "remote" the  *)
+(* remote target alone with an already flagged message                                          *)
 AllChecks(c)    == DOMAIN c.place
 ChecksIn(c, b)  == {k \in AllChecks(c) : b \in c.place[k]}
 RIndex(r)       == CHOOSE i \in 1..3 : RcptSeq[i] = r
@@ -74,6 +76,8 @@ ObsInit(CS) ==
   [ n      |-> 0,          \* number of the current / last command
     open   |-> FALSE,      \* a command is in progress
     op     |-> "", r |-> "",
+    modCur |-> FALSE,      \* a recipient modifier of the destination block failed during the current command
+    touchR |-> {},         \* recipients refused by such a failure after their block's checks had passed
     rejCur |-> FALSE,      \* an enforceable reject verdict was returned during the current command
     qCur   |-> FALSE,      \* an enforceable quarantine verdict was returned during the current command
     cur    |-> [k \in CS |-> {}],   \* stages/recipients shown to k during the current command
@@ -92,6 +96,7 @@ V(o, cond, name) == IF cond THEN o ELSE [o EXCEPT !.viol = @ \cup {name}]
 
 ObsCmd(o, c, op, r) ==
   [o EXCEPT !.n = @ + 1, !.open = TRUE, !.op = op, !.r = r, !.rejCur = FALSE, !.qCur = FALSE,
+            !.modCur = FALSE,
             !.cur = [k \in DOMAIN o.cur |-> {}]]
 
 (* a check call finished; cmd = number of the command during which it was started *)
@@ -118,7 +123,7 @@ ObsTgt(o, c, t, op, arg, res, q) ==
   LET mustQ == o.qReq \/ o.qCur \/ (c.dmarc = "quar" /\ op \in {"body", "bodyNA"})
                 \/ (c.dmarc = "quar" /\ op = "commit")
       mayQ  == o.qAny \/ c.dmarc = "quar" \/ c.kind = "remote"
-      o1 == CASE op = "rcpt" -> V(o, ~o.rejCur /\ ~o.dead /\ arg \notin o.refR, "DeliveredAfterReject")
+      o1 == CASE op = "rcpt" -> V(o, ~o.rejCur /\ ~o.modCur /\ ~o.dead /\ arg \notin o.refR, "DeliveredAfterReject")
               [] op \in {"body", "bodyNA"} -> V(o, ~o.rejCur /\ ~o.dead, "DeliveredAfterReject")
               [] op = "commit" -> V(o, ~o.dead, "DeliveredAfterReject")
               [] OTHER -> o
@@ -127,8 +132,11 @@ ObsTgt(o, c, t, op, arg, res, q) ==
             ELSE o1
       o3 == V(o2, q => mayQ, "QuarantineWithoutVerdict")
   \* the remote target refuses a flagged message for good (a transient failure is not a refusal)
-  IN V(o3, (c.kind = "remote" /\ q /\ op \in {"rcpt", "body", "bodyNA"}) => res = "perm",
+  IN V(o3, (c.kind \in {"remote", "rpipe"} /\ q /\ op \in {"rcpt", "body", "bodyNA"}) => res = "perm",
        "RemoteAcceptedQuarantined")
+
+(* the recipient modifier of destination block blk was asked to rewrite r; res = "ok" | "err" *)
+ObsMod(o, c, blk, r, res) == [o EXCEPT !.modCur = @ \/ res # "ok"]
 
 Fold(o, accepted) ==
   LET o1 == IF accepted
@@ -144,10 +152,17 @@ ObsRet(o, c, op, r, res) ==
   IF op \notin {"start", "rcpt", "body"} THEN [o EXCEPT !.open = FALSE]
   ELSE
   LET acc == res = "ok"
+      \* the only target is the real remote target and the message is flagged: it refuses the body
+      qref == c.kind = "rpipe" /\ op = "body" /\ (o.qReq \/ o.qCur \/ c.dmarc = "quar")
+      \* destination blocks whose checks passed for a recipient that a modifier then refused may or
+      \* may not take part in the body stage
+      must == ExpRefused(c, op, r, o.accR) \/ qref
+      may  == ExpRefused(c, op, r, o.accR \cup o.touchR) \/ qref \/ o.modCur
       o1 == V(o, ~(acc /\ o.rejCur), "RejectNotEnforced")
-      o2 == V(o1, ~(~acc /\ ~o.rejCur), "RefusedWithoutReject")
-      o3 == V(o2, acc = ~ExpRefused(c, op, r, o.accR), "OutcomeNotAsSpecified")
-      o4 == Fold(o3, acc)
+      o2 == V(o1, ~(~acc /\ ~o.rejCur /\ ~o.modCur /\ ~qref), "RefusedWithoutReject")
+      o3 == V(o2, (must => ~acc) /\ (~acc => may), "OutcomeNotAsSpecified")
+      o3b == V(o3, ~(acc /\ qref), "RemoteAcceptedQuarantined")
+      o4 == Fold(o3b, acc)
       accR1 == IF acc /\ op = "rcpt" THEN o.accR \cup {r} ELSE o.accR
       need(k) == CASE op = "start" -> IF k \in ChecksIn(c, "G") \cup ChecksIn(c, "S")
                                       THEN {"conn", "sender"} ELSE {}
@@ -160,9 +175,10 @@ ObsRet(o, c, op, r, res) ==
   IN [o5 EXCEPT !.open = FALSE, !.lastOk = acc,
                 !.accR = accR1,
                 !.refR = IF ~acc /\ op = "rcpt" THEN @ \cup {r} ELSE @,
+                !.touchR = IF ~acc /\ op = "rcpt" /\ o.modCur /\ ~o.rejCur THEN @ \cup {r} ELSE @,
                 !.qReq = @ \/ (acc /\ o.qCur),
                 !.dead = @ \/ (~acc /\ op \in {"start", "body"}),
-                !.rejCur = FALSE, !.qCur = FALSE]
+                !.rejCur = FALSE, !.qCur = FALSE, !.modCur = FALSE]
 
 ObsEnd(o, c) == V(o, ~(o.qReq /\ o.tF), "QuarantineNotSeen")
 =============================================================================
